@@ -45,7 +45,7 @@ type WorkerResult struct {
 	Directed   int            `json:"directed_runs"`
 	NonTrivial int            `json:"nontrivial_runs"`
 	Steps      int64          `json:"steps"`
-	SimNs      int64          `json:"sim_ns"`
+	SimS       float64        `json:"sim_s"` // simulated seconds (a float: 10^8 runs of hour-long timer histories overflow int64 nanoseconds)
 	Stats      map[string]int `json:"stats"`
 	ByScenario map[string]int `json:"by_scenario"`
 	KnownHits  map[string]int `json:"known_hits"`
@@ -335,7 +335,7 @@ func main() {
 	account := func(o *scen.Outcome) {
 		res.Runs++
 		res.Steps += int64(o.Steps)
-		res.SimNs += o.SimNs
+		res.SimS += float64(o.SimNs) / 1e9
 		res.ByScenario[o.Scenario]++
 		nt := false
 		for i, v := range o.Stats {
